@@ -42,6 +42,13 @@ NOTES = {
     'C17-7': 'first missed: no image carried several source URLs in another order between the versions; responsive-image galleries added to the workload',
     'C17-8': 'first missed: no page beyond the spacer cap was diffed twice in one process; a 900-card page chain added to the workload',
     'C19-7': 'first missed: no two parameter values differed only in Unicode normalisation form; NFC/NFD/compatibility variants added',
+    # round 6
+    'C03-10': 'first missed: no link or image URL was one that URL libraries reject (non-IP brackets); added to the generator pools',
+    'C04-10': 'first missed: no two targets differed only in what a URL library normalises away (empty query/fragment, embedded blanks, case after the host); added',
+    'C10-10': 'first missed: no changed entry changed both its text (in letter case only) and its target; case-variant link families added',
+    'C14-9': 'first missed: no pair had identical content under different html/head/body attributes; added, under every include value',
+    'C16-10': 'first missed: the session id always ended the path; session ids after a query string and inside a fragment added',
+    'C17-10': 'first missed: no refused argument (unknown rule after a valid one) was repeated in one process; added to the workload',
     'C20-5': 'first missed: shutdown never began while a request was still fetching its pages; two scenarios added to the real-process probe',
 }
 
@@ -73,15 +80,15 @@ def main():
     i = s.index('## 11. Seeded changes')
     head = '''## 11. Seeded changes and reverse fixes: which check catches what
 
-%d breaking changes were made by fresh sub-agents in five rounds (2 per property per round from
-round 2 on; rounds 4 and 5 asked for changes that need something specific to manifest: an interleaving, a
+%d breaking changes were made by fresh sub-agents in six rounds (2 per property per round from
+round 2 on; rounds 4 to 6 asked for changes that need something specific to manifest: an interleaving, a
 multi-request history, an unusual input, two cooperating edits), each agent given only the text of
 one property and a scratch worktree under `/tmp`; each change was confirmed by me
 (`harness/confirm_seed.sh`: the agent's demonstration passes on the unchanged tree and
 fails with the change; the 81 tests still pass) and archived under `seeded/<id>/`.
 `harness/seed_sweep.py` applies each in turn to `/repo`, runs the quick check of its
 property, records the failing obligations (`seeded/SWEEP.json`, `meta.json: caught_by`)
-and undoes it. **%d of %d are caught by the quick tier; all 16 reverse fixes are caught.**
+and undoes it. **%d of %d are caught by the quick tier; all 18 reverse fixes are caught.**
 The sweep of all changes runs as six shards side by side, each on its own snapshot of `/verif` and of the
 repository (`harness/sweep_shard.sh` under `vp run --with-repo`, 35 minutes), never on `/repo` while a check runs there.
 Seeds that an earlier version of a check missed (or caught by correspondence only) are
